@@ -57,7 +57,8 @@ prop("C03", "proof", "Lean theorems on Parse accounting (n, ErrEmptyBuffer, NoTr
      "as C01", GEN_RULE, "§8 C03")
 prop("C04", "proof", "refinement of the DecoderBuffer model to an append-only byte log (all growth functions) incl. the doubling copy; model tied by differential scripts that compare len, R, Off, BufferSize and cap after every operation",
      "Lean 4 refinement proof + differential correspondence",
-     [S("d-buf", 300, 6000, ["d.wblk.ok", "d.wblk.shrunk", "d.match.overlap", "d.match.doubling2", "d.read"])],
+     [S("d-buf", 300, 6000, ["d.wblk.ok", "d.wblk.shrunk", "d.match.overlap", "d.match.doubling2", "d.read"]),
+      S("dd", 200, 4000, ["d.wblk.ok", "dd.flush.ok"], hang="10s")],
      "trusted: as C01; Go runtime slice growth is a parameter of the theorems and transcribed (self-tested against append) for execution", GEN_RULE, "§8 C04")
 prop("C05", "proof", "rejection conditions and atomicity of WriteMatch/WriteBlock as Lean theorems over the full uint32 range; malformed-stream generator; caller's block compared before/after",
      "Lean 4 proof + differential correspondence with malformed streams",
@@ -109,7 +110,7 @@ prop("C16", "proof", "NewParser ⇔ Verify∘SetDefaults over Int fields; panic 
      "BufferSize ≤ MaxInt32 for GSAP/OSAP is a stated bound (D18)", GEN_RULE, "§8 C16")
 prop("C17", "proof", "n, k, l and Off exactness as part of the decoder refinement; scripts biased to a full buffer with already-read bytes",
      "Lean 4 refinement proof + differential correspondence",
-     [S("d-counts", 300, 5000, ["d.wblk.shrunk-after-read", "d.full"])],
+     [S("d-counts", 300, 5000, ["d.wblk.shrunk-after-read", "d.full"]), S("dd", 200, 3000, ["d.wblk.ok"], hang="10s")],
      "as C04", GEN_RULE, "§8 C17")
 prop("C18", "proof", "writer scripts with every placement of short writes and errors; delivered-prefix invariant and retry theorem in Lean",
      "Lean 4 proof + differential correspondence with fault-injecting writers",
